@@ -330,6 +330,13 @@ fn render<T: DiffableStr + ?Sized>(
         let display = u.to_string();
         let mut written = vec![];
         u.to_writer(&mut written).unwrap();
+        // the same formatter object rendered again, and its hunks iterated again, must give
+        // the same result (no state carried from one rendering to the next)
+        let mut written2 = vec![];
+        u.to_writer(&mut written2).unwrap();
+        if u.to_string() != display || written2 != written || u.iter_hunks().count() != u.iter_hunks().count() {
+            panic!("rendering the same UnifiedDiff object twice gives different results");
+        }
         Rendered { display, written, ops_valid }
     })
     .map_err(|p| format!("panic: {}", p))?;
